@@ -3,7 +3,7 @@ CONSTANTS
   World = "A"
   MaxOps = 2
   Workers = {64}
-  CatIds = {"j1", "j2", "j4", "j6", "j8", "j12", "jx2", "cx1", "cx2", "cx1b", "cc2", "cc1", "d2", "d4", "d2k", "d2b", "e1", "e2", "e1o", "e1b", "p2", "p0", "psame", "u1", "w2a"}
+  CatIds = {"j1", "j2", "j4", "j6", "j12", "cx1", "cx2", "cx1b", "cc2", "d2", "d2k", "d2b", "e1", "e2", "e1b", "p2", "p0", "w2a"}
 INVARIANTS Confluent ResultsOnce WorkerBound WorldOK
 VIEW View
 CHECK_DEADLOCK FALSE
